@@ -37,15 +37,14 @@ func (c *Ctx) packetIDOf(s *reqSite) (ssa.Value, string) {
 	if pcall == nil || len(pcall.Call.Args) < 1 {
 		return nil, "packet operand of write is not a Pack() result"
 	}
-	a, ok := c.Resolve(pcall.Call.Args[0]).(*ssa.Alloc)
-	if !ok {
+	if lit, _ := c.packetLiteral(pcall.Call.Args[0]); lit == nil {
 		return nil, "Pack receiver is not a packet literal"
 	}
 	if s.Kind == "publish" {
 		// id travels as message.ID
 		return nil, ""
 	}
-	v := c.storedField(a, "ID")
+	v := c.packetField(pcall.Call.Args[0], "ID")
 	if v == nil {
 		return nil, "packet literal has no single ID store"
 	}
@@ -99,15 +98,18 @@ func (c *Ctx) ruleRegisterBeforeWrite(rr *RuleRep, sites []*reqSite, opts ...str
 		}
 		// (c) channel freshly made in this function with capacity >= 1
 		mk, ok := s.RegChan.(*ssa.MakeChan)
-		if !ok {
+		if !ok && s.RegViaHelper != nil && s.RegChan == ssa.Value(s.Reg.(*ssa.Call)) {
+			// the helper makes the buffered channel itself (checked by its summary)
+		} else if !ok {
 			rr.Bad(key, s.Reg.Pos(), "registered waiter is not a freshly made channel (%s)", s.RegChan.String())
 			continue
 		}
-		if mk.Parent() != s.F && !has("no-fresh-in-stage") {
+		if mk != nil && mk.Parent() != s.F && !has("no-fresh-in-stage") {
 			rr.Bad(key, s.Reg.Pos(), "the waiter channel is created in %s, not in the stage that registers it: an acknowledgement delivered before this stage started would already sit in it and complete the request spuriously", FuncName(mk.Parent()))
 			continue
 		}
-		if n, ok := constInt(mk.Size); !ok || n < 1 {
+		if mk == nil {
+		} else if n, ok := constInt(mk.Size); !ok || n < 1 {
 			rr.Bad(key, mk.Pos(), "waiter channel has no buffer: serve's non-blocking send would drop the acknowledgement if the requester is not yet receiving")
 			continue
 		}
@@ -131,7 +133,7 @@ func (c *Ctx) ruleRegisterBeforeWrite(rr *RuleRep, sites []*reqSite, opts ...str
 		}
 		// (e) under the signaller's exclusive lock
 		muF := c.structField("signaller", "mu")
-		if muF != nil && !c.heldAt(s.F, s.Reg, s.SigBase, muF, "w") {
+		if s.RegViaHelper == nil && muF != nil && !c.heldAt(s.F, s.Reg, s.SigBase, muF, "w") {
 			rr.Bad(key, s.Reg.Pos(), "waiter registration is not inside signaller.mu's exclusive section")
 			continue
 		}
@@ -148,6 +150,7 @@ func (c *Ctx) structField(typ, field string) *types.Var {
 	if !ok {
 		return nil
 	}
+	field = aliasField(typ, field)
 	for i := 0; i < st.NumFields(); i++ {
 		if st.Field(i).Name() == field {
 			return st.Field(i)
